@@ -188,6 +188,13 @@ func stream(c *Case, rng *rand.Rand) (frames [][]byte, err error) {
 			q.WQty = 100
 			q.Data = libx.RandBytes(rng, 200)
 		}
+		if fc <= 4 && len(c.FCs) > 1 && c.Kind != "all" && rng.Intn(8) == 0 {
+			// a read request the parser refuses (quantity 0): it is answered with an exception - once - and whatever
+			// follows it in the same read is still served
+			q.Qty = 0
+			frames = append(frames, q.Encode(specref.TCP))
+			continue
+		}
 		req, e := libx.NewRequest(specref.TCP, q)
 		if e != nil {
 			return nil, e
@@ -211,6 +218,9 @@ func refReplies(c *Case, frames [][]byte) [][]byte {
 	var out [][]byte
 	for _, f := range frames {
 		rep := dev.Serve(specref.TCP, f)
+		if len(f) == 12 && f[7] >= 1 && f[7] <= 4 && f[10] == 0 && f[11] == 0 { // quantity 0: illegal data value, addressed to the request
+			rep = []byte{f[0], f[1], 0, 0, 0, 3, f[6], f[7] | 0x80, 3}
+		}
 		if rep == nil && len(f) >= 9 && !specref.Supported(f[7]) { // unsupported function: exception 01 addressed to the request
 			rep = []byte{f[0], f[1], 0, 0, 0, 3, f[6], f[7] | 0x80, 1}
 		}
